@@ -8,6 +8,7 @@ import (
 
 	"golang.org/x/tools/go/ssa"
 
+	"gosmt/smt"
 	"gosmt/term"
 )
 
@@ -108,7 +109,21 @@ func init() {
 				if it.cfg.Concrete != nil {
 					ins = it.inputs
 				} else {
-					_, m := it.check(nil, it.inputVars())
+					// the assertion is false on this whole path: it is a violation iff the path is feasible
+					var r smt.Result
+					var m map[string]uint64
+					if it.model != nil && len(it.trace) >= len(it.prefix) {
+						r, m = smt.Sat, it.model
+					} else {
+						r, m = it.check(nil, it.inputVars())
+					}
+					if r == smt.Unsat {
+						panic(pathEnd{"infeasible path"})
+					}
+					if r != smt.Sat || !it.modelSatisfies(m, it.ts.True) {
+						it.noteUnknown("feasibility of a path on which assertion \"" + msg + "\" is false")
+						panic(pathEnd{"assertion false on a path of unknown feasibility"})
+					}
 					ins = it.modelInputs(m)
 				}
 				it.fail(Failure{Kind: "assert", Msg: msg, Inputs: ins, Stack: it.stackString(), PathLen: len(it.trace)})
